@@ -12,6 +12,8 @@ import (
 	"go/ast"
 	"math/big"
 	"strings"
+	"sync"
+	"time"
 
 	"golang.org/x/crypto/pbkdf2"
 
@@ -114,38 +116,60 @@ func pad(n *big.Int) []byte {
 	return b
 }
 
-type server struct {
-	p, g, v, b, k *big.Int
-	s1, s2        []byte
+// account: what the server stores for one user (group, salts, verifier v) plus what the harness needs to
+// play both sides cheaply.  PBKDF2 depends on (password, salts) only: it is computed once per account
+// (and once for the account's wrong password) and reused for every session of that account.
+type account struct {
+	p, g, v, x, k, kv *big.Int
+	gi                int
+	pBytes            []byte
+	pw, s1, s2        []byte
+	kd                []byte // PBKDF2 output for pw
+	wrongPw, wrongKd  []byte
 }
 
-func newServer(p *big.Int, g int, pw, s1, s2 []byte, b *big.Int) (*server, []byte) {
+func newAccount(p *big.Int, g int, pw, s1, s2, wrongPw []byte) *account {
 	G := big.NewInt(int64(g))
 	kd := pbk(ph1(pw, s1, s2), s1)
 	x := new(big.Int).SetBytes(sh(kd, s2))
-	return &server{p: p, g: G, v: new(big.Int).Exp(G, x, p), b: b, k: new(big.Int).SetBytes(h(pad(p), pad(G))), s1: s1, s2: s2}, kd
+	v := new(big.Int).Exp(G, x, p)
+	k := new(big.Int).SetBytes(h(pad(p), pad(G)))
+	kv := new(big.Int).Mul(k, v)
+	kv.Mod(kv, p)
+	return &account{p: p, g: G, v: v, x: x, k: k, kv: kv, gi: g, pBytes: p.Bytes(), pw: pw, s1: s1, s2: s2, kd: kd,
+		wrongPw: wrongPw, wrongKd: pbk(ph1(wrongPw, s1, s2), s1)}
 }
 
-func (s *server) B() *big.Int {
-	kv := new(big.Int).Mul(s.k, s.v)
-	gb := new(big.Int).Exp(s.g, s.b, s.p)
-	return kv.Add(kv, gb).Mod(kv, s.p)
+// B = (k·v + g^b) mod p for server secret b.
+func (a *account) B(b *big.Int) *big.Int {
+	gb := new(big.Int).Exp(a.g, b, a.p)
+	return gb.Add(gb, a.kv).Mod(gb, a.p)
 }
 
-func (s *server) accepts(A, M1 []byte) bool {
-	a := new(big.Int).SetBytes(A)
-	B := s.B()
-	u := new(big.Int).SetBytes(h(pad(a), pad(B)))
-	S := new(big.Int).Exp(s.v, u, s.p)
-	S.Mul(S, a).Mod(S, s.p).Exp(S, s.b, s.p)
+// serverS = (A · v^u)^b mod p with u = H(pad A | pad B).
+func (a *account) serverS(A, B, b *big.Int) (S, u *big.Int) {
+	u = new(big.Int).SetBytes(h(pad(A), pad(B)))
+	S = new(big.Int).Exp(a.v, u, a.p)
+	S.Mul(S, A).Mod(S, a.p).Exp(S, b, a.p)
+	return S, u
+}
+
+// accepts: the verifier's decision for the answer (A, M1) of a session with server secret b.
+func (a *account) accepts(b *big.Int, A, M1 []byte) bool {
+	An := new(big.Int).SetBytes(A)
+	B := a.B(b)
+	S, _ := a.serverS(An, B, b)
 	K := h(pad(S))
-	hp, hg := h(pad(s.p)), h(pad(s.g))
+	hp, hg := h(pad(a.p)), h(pad(a.g))
 	x := make([]byte, 32)
 	for i := range x {
 		x[i] = hp[i] ^ hg[i]
 	}
-	return bytes.Equal(M1, h(x, h(s.s1), h(s.s2), pad(a), pad(B), K))
+	return bytes.Equal(M1, h(x, h(a.s1), h(a.s2), pad(An), pad(B), K))
 }
+
+// zeroBytes: number of leading zero bytes of n in its 2048-bit big-endian form.
+func zeroBytes(n *big.Int) int { return 256 - (n.BitLen()+7)/8 }
 
 func euler(g int64, p *big.Int) bool {
 	e := new(big.Int).Rsh(new(big.Int).Sub(p, big.NewInt(1)), 1)
@@ -173,7 +197,7 @@ func run(c *hc.Ctx) error {
 				out = fmt.Sprintf("panic:%v", rec)
 			}
 		}()
-		a, err := srp.NewSRP(r).Hash(pw, srpB, random, in)
+		a, err := srp.NewSRP(bytes.NewReader(nil)).Hash(pw, srpB, random, in)
 		if err != nil {
 			switch {
 			case strings.Contains(err.Error(), "validate algo"):
@@ -207,67 +231,195 @@ func run(c *hc.Ctx) error {
 		return ok[r.Intn(len(ok))]
 	}
 
-	// ---- 0. the documentation vector of srp_test.go
-	// ---- 1. honest sessions: right and wrong passwords, production group and table groups
-	n := c.N(12, 400)
-	full := c.N(2, 12) // answers for which the Lean model runs PBKDF2 itself (100000 iterations)
-	for i := 0; i < n; i++ {
+	t0 := time.Now()
+	// ---- 1. honest sessions.  Accounts (group, generator, password, salts; PBKDF2 once each) ...
+	nAcc := c.N(4, 16)
+	var accs []*account
+	for i := 0; i < nAcc; i++ {
 		p := sps[0]
 		if i%2 == 1 {
 			p = sps[1+r.Intn(len(sps)-1)]
 		}
-		g := validG(p)
 		pw, s1, s2 := genBytes("pw"), genBytes("salt1"), genBytes("salt2")
-		bSecret := new(big.Int).SetBytes(r.Bytes(256))
-		srv, kd := newServer(p, g, pw, s1, s2, bSecret)
-		B := srv.B()
-		srpB := pad(B)
-		if r.Chance(15) { // minimal big-endian form (the TL field is `bytes`)
-			srpB = B.Bytes()
+		wrong := append(append([]byte{}, pw...), byte('x'))
+		if r.Bool() && len(pw) > 0 {
+			wrong = append([]byte{}, pw...)
+			wrong[r.Intn(len(wrong))] ^= 1 << uint(r.Intn(8))
 		}
-		random := r.Bytes(hc.Pick(r, 256, 256, 256, 32, 1, 300))
-		in := srp.Input{Salt1: s1, Salt2: s2, G: g, P: p.Bytes()}
-		wrong := r.Chance(35)
-		cpw := pw
-		ckd := kd
-		if wrong {
-			cpw = append(append([]byte{}, pw...), byte('x'))
-			if r.Bool() && len(pw) > 0 {
-				cpw = append([]byte{}, pw...)
-				cpw[r.Intn(len(cpw))] ^= 1 << uint(r.Intn(8))
+		accs = append(accs, newAccount(p, validG(p), pw, s1, s2, wrong))
+	}
+	// an account whose k = H(p | g) starts with a zero byte, if the table has one
+	for _, p := range sps {
+		for g := 2; g <= 7; g++ {
+			if crypto.CheckGP(g, p) == nil && h(pad(p), pad(big.NewInt(int64(g))))[0] == 0 && len(accs) == nAcc {
+				accs = append(accs, newAccount(p, g, genBytes("pw"), genBytes("salt1"), genBytes("salt2"), []byte("wrong")))
+				c.Count("account.k-with-leading-zero-byte")
 			}
-			ckd = pbk(ph1(cpw, s1, s2), s1)
 		}
-		ans, out := call(cpw, srpB, random, in)
-		line := fmt.Sprintf("srpk %d %s 1 1 %s %s %s %s %s %s", g, hc.Hex(p.Bytes()), hc.Hex(cpw), hc.Hex(s1), hc.Hex(s2), hc.Hex(srpB), hc.Hex(random), hc.Hex(ckd))
+	}
+	// ... and MANY sessions per account: (client secret a, server secret b) pairs, random and *searched*
+	// so that the big integers that get padded/normalised (s_a, g_a, B = g_b, u) have leading zero bytes.
+	type job struct {
+		acc   *account
+		a     []byte   // `random`
+		b     *big.Int // server secret
+		srpB  []byte   // B as delivered (255/256/257-byte forms)
+		wrong bool
+		kind  string
+		ans   srp.Answer
+		out   string
+	}
+	var jobs []*job
+	shortB := func() *big.Int { return new(big.Int).SetBytes(r.Bytes(32)) } // server's choice; keeps the search cheap
+	deliver := func(B *big.Int, form int) []byte {
+		switch form {
+		case 0:
+			return pad(B) // 256 bytes
+		case 1:
+			return B.Bytes() // minimal big-endian (255 or fewer bytes when B has leading zero bytes)
+		default:
+			return append([]byte{0}, pad(B)...) // 257 bytes: sign/zero byte in front
+		}
+	}
+	addJob := func(acc *account, a []byte, b *big.Int, form int, wrong bool, kind string) {
+		jobs = append(jobs, &job{acc: acc, a: a, b: b, srpB: deliver(acc.B(b), form), wrong: wrong, kind: kind})
+	}
+	searchLimit := 400000
+	// (i) random sessions, 1/3 with the wrong password
+	for i := 0; i < c.N(24, 400); i++ {
+		acc := accs[r.Intn(len(accs))]
+		a := r.Bytes(hc.Pick(r, 256, 256, 256, 32, 1, 300))
+		b := new(big.Int).SetBytes(r.Bytes(hc.Pick(r, 256, 32)))
+		addJob(acc, a, b, hc.Pick(r, 0, 0, 1, 2), r.Chance(33), "random")
+	}
+	// (ii) s_a with nz leading zero bytes: fixed a, search b
+	saSearch := func(acc *account, nz int) bool {
+		a := r.Bytes(hc.Pick(r, 256, 32))
+		A := new(big.Int).Exp(acc.g, new(big.Int).SetBytes(a), acc.p)
+		for t := 0; t < searchLimit; t++ {
+			b := shortB()
+			S, _ := acc.serverS(A, acc.B(b), b)
+			if zeroBytes(S) >= nz {
+				addJob(acc, a, b, hc.Pick(r, 0, 0, 1, 2), false, fmt.Sprintf("s_a-%d-leading-zero-bytes", zeroBytes(S)))
+				return true
+			}
+		}
+		return false
+	}
+	for i := 0; i < c.N(8, 60); i++ {
+		saSearch(accs[i%len(accs)], 1)
+	}
+	// (iii) g_a = A with leading zero bytes: tiny secrets (a = 0, 1, 2: A = 1, g, g²) and searched ones
+	for _, a := range [][]byte{{}, {0}, {1}, {2}, {0, 0, 3}} {
+		addJob(accs[r.Intn(len(accs))], a, shortB(), r.Intn(3), false, "g_a-tiny-secret")
+	}
+	gaSearch := func(acc *account, nz int) {
+		for t := 0; t < searchLimit; t++ {
+			a := r.Bytes(8)
+			if A := new(big.Int).Exp(acc.g, new(big.Int).SetBytes(a), acc.p); zeroBytes(A) >= nz {
+				addJob(acc, a, shortB(), r.Intn(3), false, fmt.Sprintf("g_a-%d-leading-zero-bytes", zeroBytes(A)))
+				return
+			}
+		}
+	}
+	for i := 0; i < c.N(4, 24); i++ {
+		gaSearch(accs[i%len(accs)], 1)
+	}
+	// (iv) B = g_b with leading zero bytes, delivered in all three forms
+	bSearch := func(acc *account, nz int) {
+		for t := 0; t < searchLimit; t++ {
+			b := shortB()
+			if B := acc.B(b); zeroBytes(B) >= nz {
+				a := r.Bytes(hc.Pick(r, 256, 32))
+				for form := 0; form < 3; form++ {
+					addJob(acc, a, b, form, false, fmt.Sprintf("B-%d-leading-zero-bytes.form%d", zeroBytes(B), form))
+				}
+				return
+			}
+		}
+	}
+	for i := 0; i < c.N(3, 20); i++ {
+		bSearch(accs[i%len(accs)], 1)
+	}
+	// (v) u = H(g_a | g_b) with a leading zero byte
+	for i := 0; i < c.N(3, 20); i++ {
+		acc := accs[i%len(accs)]
+		a := r.Bytes(32)
+		A := new(big.Int).Exp(acc.g, new(big.Int).SetBytes(a), acc.p)
+		for t := 0; t < searchLimit; t++ {
+			b := shortB()
+			if _, u := acc.serverS(A, acc.B(b), b); u.BitLen() <= 248 {
+				addJob(acc, a, b, r.Intn(3), false, "u-leading-zero-byte")
+				break
+			}
+		}
+	}
+	// (vi) two leading zero bytes (1 in 65536): thorough only
+	if c.Thorough() {
+		saSearch(accs[0], 2)
+		gaSearch(accs[1], 2)
+		bSearch(accs[2], 2)
+	}
+	c.Note("time: accounts + directed searches %.1fs", time.Since(t0).Seconds())
+	t0 = time.Now()
+	// run the implementation on all sessions (8 workers: each call costs 2×64 Miller–Rabin rounds on the
+	// 2048-bit modulus plus one PBKDF2; results are consumed in generation order)
+	{
+		var wg sync.WaitGroup
+		ch := make(chan *job)
+		for w := 0; w < 8; w++ {
+			wg.Add(1)
+			go func() {
+				defer wg.Done()
+				for j := range ch {
+					pw := j.acc.pw
+					if j.wrong {
+						pw = j.acc.wrongPw
+					}
+					j.ans, j.out = call(pw, j.srpB, j.a, srp.Input{Salt1: j.acc.s1, Salt2: j.acc.s2, G: j.acc.gi, P: j.acc.pBytes})
+				}
+			}()
+		}
+		for _, j := range jobs {
+			ch <- j
+		}
+		close(ch)
+		wg.Wait()
+	}
+	c.Note("time: %d implementation calls (8 workers) %.1fs", len(jobs), time.Since(t0).Seconds())
+	full := c.N(2, 12) // answers for which the Lean model runs PBKDF2 itself (100000 iterations)
+	for i, j := range jobs {
+		acc := j.acc
+		cpw, ckd := acc.pw, acc.kd
+		if j.wrong {
+			cpw, ckd = acc.wrongPw, acc.wrongKd
+		}
+		line := fmt.Sprintf("srpk %d %s 1 1 %s %s %s %s %s %s", acc.gi, hc.Hex(acc.pBytes), hc.Hex(cpw), hc.Hex(acc.s1), hc.Hex(acc.s2), hc.Hex(j.srpB), hc.Hex(j.a), hc.Hex(ckd))
 		if i < full {
-			line = fmt.Sprintf("srp %d %s 1 1 %s %s %s %s %s", g, hc.Hex(p.Bytes()), hc.Hex(cpw), hc.Hex(s1), hc.Hex(s2), hc.Hex(srpB), hc.Hex(random))
+			line = fmt.Sprintf("srp %d %s 1 1 %s %s %s %s %s", acc.gi, hc.Hex(acc.pBytes), hc.Hex(cpw), hc.Hex(acc.s1), hc.Hex(acc.s2), hc.Hex(j.srpB), hc.Hex(j.a))
 			c.Count("model-runs-pbkdf2")
 		}
 		c.Eval(line, true)
-		if out != "ok" {
-			c.Fail("srp-valid-group-refused", line, out)
-			cs = append(cs, cmp{line, out})
+		c.Count("session." + j.kind)
+		c.Count(fmt.Sprintf("B-delivered-as-%d-bytes", min(len(j.srpB), 257)))
+		if j.out != "ok" {
+			c.Fail("srp-valid-group-refused", line, j.out)
+			cs = append(cs, cmp{line, j.out})
 			continue
 		}
-		acc := srv.accepts(ans.A, ans.M1)
+		acc2 := acc.accepts(j.b, j.ans.A, j.ans.M1)
 		kind := "right-password"
-		if wrong {
+		if j.wrong {
 			kind = "wrong-password"
 		}
-		c.Count(fmt.Sprintf("session.%s.accepted=%v", kind, acc))
-		if i%2 == 0 {
-			c.Count("group.production")
-		} else {
-			c.Count("group.table")
+		c.Count(fmt.Sprintf("verifier.%s.accepted=%v", kind, acc2))
+		if acc2 == j.wrong {
+			c.Fail("srp-verifier", line, fmt.Sprintf("%s, %s, B delivered as %d bytes: independent verifier accepted=%v", kind, j.kind, len(j.srpB), acc2))
 		}
-		if acc == wrong {
-			c.Fail("srp-verifier", line, fmt.Sprintf("%s: independent verifier accepted=%v", kind, acc))
+		if len(j.ans.A) != 256 || len(j.ans.M1) != 32 {
+			c.Fail("srp-answer-shape", line, fmt.Sprintf("len(A)=%d len(M1)=%d", len(j.ans.A), len(j.ans.M1)))
 		}
-		if len(ans.A) != 256 || len(ans.M1) != 32 {
-			c.Fail("srp-answer-shape", line, fmt.Sprintf("len(A)=%d len(M1)=%d", len(ans.A), len(ans.M1)))
-		}
-		cs = append(cs, cmp{line, fmt.Sprintf("ok %s %s %s", hc.Hex(ans.A), hc.Hex(ans.M1), hc.Hex(ph1(cpw, s1, s2)))})
+		cs = append(cs, cmp{line, fmt.Sprintf("ok %s %s %s", hc.Hex(j.ans.A), hc.Hex(j.ans.M1), hc.Hex(ph1(cpw, acc.s1, acc.s2)))})
 	}
 
 	// ---- 2. arbitrary server values B (not produced by a verifier): correspondence only
@@ -358,13 +510,15 @@ func run(c *hc.Ctx) error {
 		p := sps[0]
 		g := validG(p)
 		pw, s1, s2 := []byte("123123"), r.Bytes(40), r.Bytes(16)
-		srv, kd := newServer(p, g, pw, s1, s2, new(big.Int).SetBytes(r.Bytes(256)))
-		srpB, random := pad(srv.B()), r.Bytes(256)
+		acc := newAccount(p, g, pw, s1, s2, []byte("x"))
+		bb := new(big.Int).SetBytes(r.Bytes(256))
+		kd := acc.kd
+		srpB, random := pad(acc.B(bb)), r.Bytes(256)
 		pz := append([]byte{0}, p.Bytes()...)
 		ans, out := call(pw, srpB, random, srp.Input{Salt1: s1, Salt2: s2, G: g, P: pz})
 		line := fmt.Sprintf("srpk %d %s 1 1 %s %s %s %s %s %s", g, hc.Hex(pz), hc.Hex(pw), hc.Hex(s1), hc.Hex(s2), hc.Hex(srpB), hc.Hex(random), hc.Hex(kd))
 		if out == "ok" {
-			c.Note("observation (outside the quantifier): modulus bytes with a leading zero byte pass CheckDH but H(p) is taken over the raw 257 bytes; independent verifier accepted=%v", srv.accepts(ans.A, ans.M1))
+			c.Note("observation (outside the quantifier): modulus bytes with a leading zero byte pass CheckDH but H(p) is taken over the raw 257 bytes; independent verifier accepted=%v", acc.accepts(bb, ans.A, ans.M1))
 			out = fmt.Sprintf("ok %s %s %s", hc.Hex(ans.A), hc.Hex(ans.M1), hc.Hex(ph1(pw, s1, s2)))
 		}
 		c.Count("noncanonical-p")
@@ -379,10 +533,12 @@ func run(c *hc.Ctx) error {
 	for i, x := range cs {
 		lines[i] = x.line
 	}
+	t0 = time.Now()
 	outs, err := c.Drv.Batch(lines)
 	if err != nil {
 		return err
 	}
+	c.Note("time: model driver %.1fs", time.Since(t0).Seconds())
 	for i, o := range outs {
 		if c.Compare(cs[i].line, cs[i].impl, o) {
 			c.Res.TracesValidated++
